@@ -25,25 +25,40 @@ def pytest_configure(config):
     def report(kind, op, detail):
         key = (type(op).__name__, '%s->%s' % (util.space_tag(op.domain), util.space_tag(op.range)), kind)
         viol[key] = viol.get(key, 0) + 1
-    sanitize.poison_on()
-    mon = sanitize.CallMonitor(report, shadow=os.environ.get('VF_AMBIENT_SHADOW', '0') == '1', library_only=True, count=counts)
-    mon.install()
+    class Rec(object):
+        def ev(self, name, n=1):
+            counts[name] = counts.get(name, 0) + n
+
+        def violation(self, comp, cfg, kind, **detail):
+            key = (comp, cfg.split(';a=')[0], kind)
+            viol[key] = viol.get(key, 0) + 1
+            if key not in examples:
+                examples[key] = {k: repr(v)[:200] for k, v in detail.items()}
+
+        def note_add(self, key, n=1):
+            counts[key] = counts.get(key, 0) + n
+    examples = {}
+    if os.environ.get('VF_AMBIENT_NO_CALLMON', '0') != '1':
+        sanitize.poison_on()
+        mon = sanitize.CallMonitor(report, shadow=os.environ.get('VF_AMBIENT_SHADOW', '0') == '1', library_only=True, count=counts)
+        mon.install()
+    if os.environ.get('VF_AMBIENT_INNER', '0') == '1':
+        # C02: documented weighted sums and axioms on every inner / norm / dist call the suite makes
+        from vf.props import c02
+        c02.AmbientContract(Rec()).install()
+    if os.environ.get('VF_AMBIENT_EQ', '0') == '1':
+        # C20: coherence of ==, hash and membership on every comparison the suite makes
+        from vf.props import c20
+        c20.AmbientContract(Rec()).install()
+    if os.environ.get('VF_AMBIENT_UFUNC', '0') == '1':
+        # C17: every __array_ufunc__ dispatch the suite makes against NumPy on the underlying arrays
+        from vf.props import c17
+        c17.AmbientContract(Rec()).install()
     if os.environ.get('VF_AMBIENT_LINCOMB', '0') == '1':
         # C01: the lincomb / multiply / divide contract on every call the suite makes
         from vf.props import c01
-
-        class Rec(object):
-            def ev(self, name, n=1):
-                counts[name] = counts.get(name, 0) + n
-
-            def violation(self, comp, cfg, kind, **detail):
-                key = (comp, cfg.split(';a=')[0], kind)
-                viol[key] = viol.get(key, 0) + 1
-
-            def note_add(self, key, n=1):
-                counts[key] = counts.get(key, 0) + n
         c01.Contract(Rec()).install()
-    _STATE.update(viol=viol, counts=counts, sanitize=sanitize)
+    _STATE.update(viol=viol, counts=counts, sanitize=sanitize, examples=examples)
 
 
 def pytest_sessionfinish(session, exitstatus):
@@ -53,7 +68,8 @@ def pytest_sessionfinish(session, exitstatus):
     data = {
         'stats': {k: v for k, v in _STATE['counts'].items()},
         'poisoned': _STATE['sanitize'].poisoned_count(),
-        'violations': [{'component': k[0], 'config': k[1], 'kind': k[2], 'count': v} for k, v in sorted(_STATE['viol'].items())],
+        'violations': [{'component': k[0], 'config': k[1], 'kind': k[2], 'count': v, 'example': _STATE['examples'].get(k)}
+                       for k, v in sorted(_STATE['viol'].items())],
         'exitstatus': int(exitstatus),
     }
     with open(path, 'w') as f:
